@@ -941,7 +941,7 @@ pub fn spec() -> PropSpec {
             "session-generated timestamps and Acknowledgements are masked in the twin-run comparison",
         ],
         checks: vec![
-            PropCheck::new("random-histories", |ctx| case_strategy(if ctx.tier == Tier::Thorough { 40 } else { 25 }), 6_000, 200_000, eval),
+            PropCheck::new("random-histories", |ctx| case_strategy(if ctx.tier == Tier::Thorough { 40 } else { 25 }), 80_000, 2_000_000, eval),
             EnumCheck::new("bounded-exhaustive", true, exhaustive_cases, eval),
         ],
     }
